@@ -5393,15 +5393,155 @@ let p_file = function
             | String (a, s0) ->
               let Ascii (b, b0, b1, b2, b3, b4, b5, b6) = a in
               if b
-              then (match p_yaml (S (length ts2)) ts2 with
-                    | Some p0 ->
-                      let (y, ts4) = p0 in Some ((path, (Some y)), ts4)
-                    | None -> None)
-              else if b0
+              then if b0
                    then (match p_yaml (S (length ts2)) ts2 with
                          | Some p0 ->
                            let (y, ts4) = p0 in Some ((path, (Some y)), ts4)
                          | None -> None)
+                   else if b1
+                        then (match p_yaml (S (length ts2)) ts2 with
+                              | Some p0 ->
+                                let (y, ts4) = p0 in
+                                Some ((path, (Some y)), ts4)
+                              | None -> None)
+                        else if b2
+                             then if b3
+                                  then if b4
+                                       then (match p_yaml (S (length ts2)) ts2 with
+                                             | Some p0 ->
+                                               let (y, ts4) = p0 in
+                                               Some ((path, (Some y)), ts4)
+                                             | None -> None)
+                                       else if b5
+                                            then if b6
+                                                 then (match p_yaml (S
+                                                               (length ts2))
+                                                               ts2 with
+                                                       | Some p0 ->
+                                                         let (y, ts4) = p0 in
+                                                         Some ((path, (Some
+                                                         y)), ts4)
+                                                       | None -> None)
+                                                 else Some ((path, None), ts3)
+                                            else (match p_yaml (S
+                                                          (length ts2)) ts2 with
+                                                  | Some p0 ->
+                                                    let (y, ts4) = p0 in
+                                                    Some ((path, (Some y)),
+                                                    ts4)
+                                                  | None -> None)
+                                  else (match p_yaml (S (length ts2)) ts2 with
+                                        | Some p0 ->
+                                          let (y, ts4) = p0 in
+                                          Some ((path, (Some y)), ts4)
+                                        | None -> None)
+                             else (match p_yaml (S (length ts2)) ts2 with
+                                   | Some p0 ->
+                                     let (y, ts4) = p0 in
+                                     Some ((path, (Some y)), ts4)
+                                   | None -> None)
+              else if b0
+                   then if b1
+                        then if b2
+                             then (match p_yaml (S (length ts2)) ts2 with
+                                   | Some p0 ->
+                                     let (y, ts4) = p0 in
+                                     Some ((path, (Some y)), ts4)
+                                   | None -> None)
+                             else if b3
+                                  then if b4
+                                       then (match p_yaml (S (length ts2)) ts2 with
+                                             | Some p0 ->
+                                               let (y, ts4) = p0 in
+                                               Some ((path, (Some y)), ts4)
+                                             | None -> None)
+                                       else if b5
+                                            then if b6
+                                                 then (match p_yaml (S
+                                                               (length ts2))
+                                                               ts2 with
+                                                       | Some p0 ->
+                                                         let (y, ts4) = p0 in
+                                                         Some ((path, (Some
+                                                         y)), ts4)
+                                                       | None -> None)
+                                                 else (match s0 with
+                                                       | EmptyString ->
+                                                         (match p_yaml (S
+                                                                  (length ts3))
+                                                                  ts3 with
+                                                          | Some p0 ->
+                                                            let (y, ts4) = p0
+                                                            in
+                                                            Some ((path,
+                                                            (Some y)), ts4)
+                                                          | None -> None)
+                                                       | String (_, _) ->
+                                                         (match p_yaml (S
+                                                                  (length ts2))
+                                                                  ts2 with
+                                                          | Some p0 ->
+                                                            let (y, ts4) = p0
+                                                            in
+                                                            Some ((path,
+                                                            (Some y)), ts4)
+                                                          | None -> None))
+                                            else (match p_yaml (S
+                                                          (length ts2)) ts2 with
+                                                  | Some p0 ->
+                                                    let (y, ts4) = p0 in
+                                                    Some ((path, (Some y)),
+                                                    ts4)
+                                                  | None -> None)
+                                  else (match p_yaml (S (length ts2)) ts2 with
+                                        | Some p0 ->
+                                          let (y, ts4) = p0 in
+                                          Some ((path, (Some y)), ts4)
+                                        | None -> None)
+                        else if b2
+                             then (match p_yaml (S (length ts2)) ts2 with
+                                   | Some p0 ->
+                                     let (y, ts4) = p0 in
+                                     Some ((path, (Some y)), ts4)
+                                   | None -> None)
+                             else if b4
+                                  then (match p_yaml (S (length ts2)) ts2 with
+                                        | Some p0 ->
+                                          let (y, ts4) = p0 in
+                                          Some ((path, (Some y)), ts4)
+                                        | None -> None)
+                                  else if b5
+                                       then if b6
+                                            then (match p_yaml (S
+                                                          (length ts2)) ts2 with
+                                                  | Some p0 ->
+                                                    let (y, ts4) = p0 in
+                                                    Some ((path, (Some y)),
+                                                    ts4)
+                                                  | None -> None)
+                                            else Some ((path, (Some (YTagged
+                                                   ((String ((Ascii (false,
+                                                   false, true, true, true,
+                                                   true, false, false)),
+                                                   (String ((Ascii (false,
+                                                   true, false, false, true,
+                                                   true, true, false)),
+                                                   (String ((Ascii (true,
+                                                   false, false, false,
+                                                   false, true, true,
+                                                   false)), (String ((Ascii
+                                                   (true, true, true, false,
+                                                   true, true, true, false)),
+                                                   (String ((Ascii (false,
+                                                   true, true, true, true,
+                                                   true, false, false)),
+                                                   EmptyString)))))))))),
+                                                   YNull)))), ts3)
+                                       else (match p_yaml (S (length ts2)) ts2 with
+                                             | Some p0 ->
+                                               let (y, ts4) = p0 in
+                                               Some ((path, (Some y)), ts4)
+                                             | None -> None)
                    else if b1
                         then (match p_yaml (S (length ts2)) ts2 with
                               | Some p0 ->
@@ -5511,11 +5651,20 @@ let dir_doc =
     false)), (String ((Ascii (false, true, true, true, true, true, false,
     false)), EmptyString)))))))))))))))))))))), YNull)
 
+(** val file_paths : (string list * yaml option) list -> string list list **)
+
+let file_paths files =
+  map fst
+    (filter (fun pat ->
+      let (_, d) = pat in (match d with
+                           | Some _ -> true
+                           | None -> false)) files)
+
 (** val class_table :
     (string list * yaml option) list -> cls_entry list res **)
 
 let class_table files =
-  bind (discover KClass true (map fst files)) (fun es -> Ok
+  bind (discover KClass true (file_paths files)) (fun es -> Ok
     (map (fun e -> { ce_name = e.en_name; ce_doc =
       (match doc_of e.en_path files with
        | Some o -> (match o with
@@ -5527,7 +5676,7 @@ let class_table files =
     bool -> (string list * yaml option) list -> node_entry list res **)
 
 let node_table compose files =
-  bind (discover KNode compose (map fst files)) (fun es -> Ok
+  bind (discover KNode compose (file_paths files)) (fun es -> Ok
     (map (fun e -> { ne_name = e.en_name; ne_path = e.en_path; ne_doc =
       (match doc_of e.en_path files with
        | Some o -> (match o with
@@ -5886,11 +6035,11 @@ let run_inv = function
                                                               cs))))))
                                                   (bind
                                                     (discover KNode co0
-                                                      (map fst nfiles))
+                                                      (file_paths nfiles))
                                                     (fun ns ->
                                                     bind
                                                       (discover KClass true
-                                                        (map fst cfiles))
+                                                        (file_paths cfiles))
                                                       (fun cs -> Ok (ns, cs))))
                                            else String ((Ascii (false, true,
                                                   false, false, false, true,
